@@ -127,6 +127,7 @@ def check_case(case, workdir=None):
             raise Fail(f'valid model/configuration rejected: {type(exc).__name__}: {exc}',
                        f'rejected:{type(exc).__name__}') from None
         info = pr.info
+        pr.add_twin()
         try:
             exe = pr.build_driver('asan')
         except farm.BuildError as exc:
